@@ -21,7 +21,7 @@ from vlib import advexec, blockshape, gen, runner, storetrace
 
 PROPERTY = "C11"
 LEVEL = "exploration"
-TIMEOUT = {"quick": 900, "thorough": 5400}
+TIMEOUT = {"quick": 1500, "thorough": 7200}
 RULE = (
     "call-shape matrix: sources {in-memory, computed (elementwise/reduction), rechunked, fused chain} x targets {new path, "
     "path+group (to_zarr), existing Zarr array with equal / coarser / finer / unrelated chunking, sharded array} x regions "
